@@ -34,6 +34,7 @@ theorem applyFrame_carriesGo (idx : Nat) (f : Frame) (cjs : Bool) {e : GoErr} {f
     CarriesGo e (applyFrame idx f cjs fl).1 := by
   cases fl with
   | normal => simp [CarriesGo] at hc
+  | pending e0 => simp [CarriesGo] at hc
   | panic x o =>
     cases x with
     | sentinel k => simp [CarriesGo] at hc
@@ -41,7 +42,7 @@ theorem applyFrame_carriesGo (idx : Nat) (f : Frame) (cjs : Bool) {e : GoErr} {f
     | goErr e' =>
       obtain ⟨rfl, hu⟩ := hc
       obtain ⟨x', o', h, _, hx⟩ := applyFrame_unclassifiable idx f cjs (x := .goErr e') rfl
-        (Frame.dropsErrors_of_not_swallows hsw) o
+        (Or.inl (Frame.dropsErrors_of_not_swallows hsw)) o
       rw [h, hx hrw]; exact ⟨rfl, hu⟩
     | val w =>
       have hw : w.wrapsGo e := hc
@@ -50,7 +51,7 @@ theorem applyFrame_carriesGo (idx : Nat) (f : Frame) (cjs : Bool) {e : GoErr} {f
       cases f with
       | js k =>
         cases k <;> simp [Frame.swallows, JsKind.swallows, JsKind.hasCatch, JsKind.rethrows] at hsw <;>
-          simp [applyFrame, jsFrame, handleThrow, handleThrowLoop, exceptionFromValue, JsKind.hasCatch,
+          simp [applyFrame, applyFrameCore, jsFrame, handleThrow, handleThrowLoop, exceptionFromValue, JsKind.hasCatch,
             JsKind.hasFinally, JsKind.rethrows, CarriesGo, JsVal.wrapsGo, JsVal.goErrValue, JsVal.isGoErrorInstance,
             JsVal.key, JsKey.isGoErrorInstance]
       | ja => simp [Frame.swallows] at hsw
@@ -58,7 +59,7 @@ theorem applyFrame_carriesGo (idx : Nat) (f : Frame) (cjs : Bool) {e : GoErr} {f
       | rfw => simp [Frame.rewraps] at hrw
       | _ =>
         cases cjs <;>
-          simp [applyFrame, callable, invoke, jsCall, runWrapped, vmTry, handleThrow, handleThrowLoop,
+          simp [applyFrame, applyFrameCore, callable, invoke, jsCall, runWrapped, vmTry, handleThrow, handleThrowLoop,
             exceptionFromValue, panicErr, returnErr, wrapReflectErr, wrapJSFuncN, wrapJSFuncE, ErrVal.toPv, shim,
             jsFrame, runProgram, runProgram.handleThrowOpt, JsKind.hasCatch, JsKind.hasFinally, CarriesGo,
             JsVal.wrapsGo, JsVal.goErrValue, JsVal.isGoErrorInstance, JsVal.key, JsKey.isGoErrorInstance,
@@ -71,7 +72,7 @@ theorem applyFrame_carriesGo (idx : Nat) (f : Frame) (cjs : Bool) {e : GoErr} {f
       cases f with
       | js k =>
         cases k <;> simp [Frame.swallows, JsKind.swallows, JsKind.hasCatch, JsKind.rethrows] at hsw <;>
-          simp [applyFrame, jsFrame, handleThrow, handleThrowLoop, exceptionFromValue, JsKind.hasCatch,
+          simp [applyFrame, applyFrameCore, jsFrame, handleThrow, handleThrowLoop, exceptionFromValue, JsKind.hasCatch,
             JsKind.hasFinally, JsKind.rethrows, CarriesGo, JsVal.wrapsGo, JsVal.goErrValue, JsVal.isGoErrorInstance,
             JsVal.key, JsKey.isGoErrorInstance]
       | ja => simp [Frame.swallows] at hsw
@@ -79,7 +80,7 @@ theorem applyFrame_carriesGo (idx : Nat) (f : Frame) (cjs : Bool) {e : GoErr} {f
       | rfw => simp [Frame.rewraps] at hrw
       | _ =>
         cases cjs <;>
-          simp [applyFrame, callable, invoke, jsCall, runWrapped, vmTry, handleThrow, handleThrowLoop,
+          simp [applyFrame, applyFrameCore, callable, invoke, jsCall, runWrapped, vmTry, handleThrow, handleThrowLoop,
             exceptionFromValue, panicErr, returnErr, wrapReflectErr, wrapJSFuncN, wrapJSFuncE, ErrVal.toPv, shim,
             jsFrame, runProgram, runProgram.handleThrowOpt, JsKind.hasCatch, JsKind.hasFinally, CarriesGo,
             JsVal.wrapsGo, JsVal.goErrValue, JsVal.isGoErrorInstance, JsVal.key, JsKey.isGoErrorInstance,
@@ -189,6 +190,7 @@ theorem applyFrame_rfw_carriesGo (idx : Nat) (cjs : Bool) {e : GoErr} {fl : Flow
     ∃ e', CarriesGo e' (applyFrame idx .rfw cjs fl).1 ∧ e'.chainHas e = true := by
   cases fl with
   | normal => simp [CarriesGo] at hc
+  | pending e0 => simp [CarriesGo] at hc
   | panic x o =>
     cases x with
     | sentinel k => simp [CarriesGo] at hc
@@ -197,7 +199,7 @@ theorem applyFrame_rfw_carriesGo (idx : Nat) (cjs : Bool) {e : GoErr} {fl : Flow
       obtain ⟨rfl, hu⟩ := hc
       refine ⟨.wrap 0 e', ?_, by unfold GoErr.chainHas; simp [GoErr.chainHas_refl]⟩
       cases cjs <;>
-        simp [applyFrame, callable, invoke, jsCall, runWrapped, vmTry, handleThrow, handleThrowLoop,
+        simp [applyFrame, applyFrameCore, callable, invoke, jsCall, runWrapped, vmTry, handleThrow, handleThrowLoop,
           exceptionFromValue, recoverUncatchable, asUncatchableException, hu, returnWrapped, wrapErr,
           wrapReflectErr, GoErr.isUncatchable, CarriesGo]
     | val w =>
@@ -205,13 +207,13 @@ theorem applyFrame_rfw_carriesGo (idx : Nat) (cjs : Bool) {e : GoErr} {fl : Flow
       rcases wrapsGo_cases hw with ⟨i, rfl⟩ | rfl
       · refine ⟨.wrapExcGo 0 (.goError i) .empty e, ?_, by unfold GoErr.chainHas; simp [JsKey.isGoErrorInstance, GoErr.chainHas_refl]⟩
         by_cases hu : e.isUncatchable = true <;> cases cjs <;>
-          simp [applyFrame, callable, invoke, jsCall, runWrapped, vmTry, handleThrow, handleThrowLoop,
+          simp [applyFrame, applyFrameCore, callable, invoke, jsCall, runWrapped, vmTry, handleThrow, handleThrowLoop,
             exceptionFromValue, returnWrapped, wrapErr, wrapReflectErr, GoErr.isUncatchable, CarriesGo,
             JsVal.wrapsGo, JsVal.goErrValue, JsVal.isGoErrorInstance, JsVal.key, JsKey.isGoErrorInstance,
             JsVal.ownStack, hu]
       · refine ⟨.wrapExcGo 0 .freshGoError .other e, ?_, by unfold GoErr.chainHas; simp [JsKey.isGoErrorInstance, GoErr.chainHas_refl]⟩
         by_cases hu : e.isUncatchable = true <;> cases cjs <;>
-          simp [applyFrame, callable, invoke, jsCall, runWrapped, vmTry, handleThrow, handleThrowLoop,
+          simp [applyFrame, applyFrameCore, callable, invoke, jsCall, runWrapped, vmTry, handleThrow, handleThrowLoop,
             exceptionFromValue, returnWrapped, wrapErr, wrapReflectErr, GoErr.isUncatchable, CarriesGo,
             JsVal.wrapsGo, JsVal.goErrValue, JsVal.isGoErrorInstance, JsVal.key, JsKey.isGoErrorInstance,
             JsVal.ownStack, hu]
@@ -221,12 +223,12 @@ theorem applyFrame_rfw_carriesGo (idx : Nat) (cjs : Bool) {e : GoErr} {fl : Flow
       rcases wrapsGo_cases hw with ⟨i, rfl⟩ | rfl
       · refine ⟨.wrapExcGo 0 (.goError i) t e, ?_, by unfold GoErr.chainHas; simp [JsKey.isGoErrorInstance, GoErr.chainHas_refl]⟩
         by_cases hu : e.isUncatchable = true <;> cases cjs <;>
-          simp [applyFrame, callable, invoke, jsCall, runWrapped, vmTry, handleThrow, handleThrowLoop,
+          simp [applyFrame, applyFrameCore, callable, invoke, jsCall, runWrapped, vmTry, handleThrow, handleThrowLoop,
             exceptionFromValue, returnWrapped, wrapErr, wrapReflectErr, GoErr.isUncatchable, CarriesGo,
             JsVal.wrapsGo, JsVal.goErrValue, JsVal.isGoErrorInstance, JsVal.key, JsKey.isGoErrorInstance, hu]
       · refine ⟨.wrapExcGo 0 .freshGoError t e, ?_, by unfold GoErr.chainHas; simp [JsKey.isGoErrorInstance, GoErr.chainHas_refl]⟩
         by_cases hu : e.isUncatchable = true <;> cases cjs <;>
-          simp [applyFrame, callable, invoke, jsCall, runWrapped, vmTry, handleThrow, handleThrowLoop,
+          simp [applyFrame, applyFrameCore, callable, invoke, jsCall, runWrapped, vmTry, handleThrow, handleThrowLoop,
             exceptionFromValue, returnWrapped, wrapErr, wrapReflectErr, GoErr.isUncatchable, CarriesGo,
             JsVal.wrapsGo, JsVal.goErrValue, JsVal.isGoErrorInstance, JsVal.key, JsKey.isGoErrorInstance, hu]
 
@@ -256,16 +258,16 @@ theorem applyFrame_rfw_carries (idx : Nat) (cjs : Bool) {v : JsVal} {fl : Flow} 
   have red : ∀ (ex : Exc) (o : StackTop),
       (applyFrame idx .rfw cjs (.panic (.exc ex) o)).1 = wrapReflectErr (some (.go (wrapErr (.exc ex)))) := by
     intro ex o
-    cases cjs <;> simp [applyFrame, callable, invoke, runWrapped, returnWrapped]
+    cases cjs <;> simp [applyFrame, applyFrameCore, callable, invoke, runWrapped, returnWrapped]
   have redv : ∀ (o : StackTop), ∃ t,
       (applyFrame idx .rfw cjs (.panic (.val v) o)).1 = wrapReflectErr (some (.go (wrapErr (.exc ⟨v, t⟩)))) := by
     intro o
     cases hs : v.ownStack with
     | none =>
-      exact ⟨o, by cases cjs <;> simp [applyFrame, callable, invoke, jsCall, runWrapped, vmTry, handleThrow,
+      exact ⟨o, by cases cjs <;> simp [applyFrame, applyFrameCore, callable, invoke, jsCall, runWrapped, vmTry, handleThrow,
         handleThrowLoop, exceptionFromValue, returnWrapped, hs]⟩
     | some st =>
-      exact ⟨st, by cases cjs <;> simp [applyFrame, callable, invoke, jsCall, runWrapped, vmTry, handleThrow,
+      exact ⟨st, by cases cjs <;> simp [applyFrame, applyFrameCore, callable, invoke, jsCall, runWrapped, vmTry, handleThrow,
         handleThrowLoop, exceptionFromValue, returnWrapped, hs]⟩
   rcases carries_cases hc with ⟨o, rfl⟩ | ⟨t, o, rfl⟩
   · obtain ⟨t, ht⟩ := redv o
@@ -304,6 +306,7 @@ theorem carriesGo_cases {e : GoErr} {fl : Flow} (h : CarriesGo e fl) :
     (∃ w t o, fl = .panic (.exc ⟨w, t⟩) o ∧ w.wrapsGo e) := by
   cases fl with
   | normal => simp [CarriesGo] at h
+  | pending e0 => simp [CarriesGo] at h
   | panic x o =>
     cases x with
     | sentinel k => simp [CarriesGo] at h
@@ -430,6 +433,7 @@ def Exact (ex0 : Exc) : Flow → Prop
 theorem exact_cases {ex0 : Exc} {fl : Flow} (h : Exact ex0 fl) : ∃ o, fl = .panic (.exc ex0) o := by
   cases fl with
   | normal => simp [Exact] at h
+  | pending e0 => simp [Exact] at h
   | panic x o => cases x <;> simp [Exact] at h; exact ⟨o, by rw [h]⟩
 
 theorem applyFrame_exact (idx : Nat) (f : Frame) (cjs : Bool) {ex0 : Exc} {fl : Flow}
@@ -440,12 +444,12 @@ theorem applyFrame_exact (idx : Nat) (f : Frame) (cjs : Bool) {ex0 : Exc} {fl : 
   cases f with
   | js k =>
     cases k <;> simp [Frame.swallows, JsKind.swallows, JsKind.hasCatch, JsKind.rethrows, Frame.rethrows] at hsw hr <;>
-      simp [applyFrame, jsFrame, handleThrow, handleThrowLoop, exceptionFromValue, JsKind.hasCatch,
+      simp [applyFrame, applyFrameCore, jsFrame, handleThrow, handleThrowLoop, exceptionFromValue, JsKind.hasCatch,
         JsKind.hasFinally, JsKind.rethrows, Exact]
   | xfe =>
     rcases hu with hu | hu
     · cases cjs <;>
-        simp [applyFrame, callable, invoke, jsCall, runWrapped, vmTry, handleThrow, handleThrowLoop,
+        simp [applyFrame, applyFrameCore, callable, invoke, jsCall, runWrapped, vmTry, handleThrow, handleThrowLoop,
           exceptionFromValue, wrapJSFuncE, returnErr, wrapReflectErr, hu, Exact]
     · simp [Frame.unwraps] at hu
   | fcv => simp [Frame.rethrows] at hr
@@ -454,7 +458,7 @@ theorem applyFrame_exact (idx : Nat) (f : Frame) (cjs : Bool) {ex0 : Exc} {fl : 
   | fcs => simp [Frame.swallows] at hsw
   | _ =>
     cases cjs <;>
-      simp [applyFrame, callable, invoke, jsCall, runWrapped, vmTry, handleThrow, handleThrowLoop,
+      simp [applyFrame, applyFrameCore, callable, invoke, jsCall, runWrapped, vmTry, handleThrow, handleThrowLoop,
         exceptionFromValue, panicErr, returnErr, wrapReflectErr, wrapJSFuncN, ErrVal.toPv, shim, jsFrame,
         runProgram, runProgram.handleThrowOpt, JsKind.hasCatch, JsKind.hasFinally, Exact]
 
@@ -666,6 +670,7 @@ theorem topIs_cases {v : JsVal} {t : StackTop} {fl : Flow} (h : TopIs v t fl) :
     (∃ o, fl = .panic (.exc ⟨v, t⟩) o) ∨ (fl = .panic (.val v) .other ∧ t = nativeTop v) := by
   cases fl with
   | normal => simp [TopIs] at h
+  | pending e0 => simp [TopIs] at h
   | panic x o =>
     cases x <;> simp [TopIs] at h
     · obtain ⟨rfl, rfl, ht⟩ := h; exact Or.inr ⟨rfl, ht⟩
@@ -679,12 +684,12 @@ theorem applyFrame_topIs (idx : Nat) (f : Frame) (cjs : Bool) {v : JsVal} {t : S
   · cases f with
     | js k =>
       cases k <;> simp [Frame.swallows, JsKind.swallows, JsKind.hasCatch, JsKind.rethrows] at hsw <;>
-        simp [applyFrame, jsFrame, handleThrow, handleThrowLoop, exceptionFromValue, JsKind.hasCatch,
+        simp [applyFrame, applyFrameCore, jsFrame, handleThrow, handleThrowLoop, exceptionFromValue, JsKind.hasCatch,
           JsKind.hasFinally, JsKind.rethrows, TopIs, stepTop, throwExec]
     | xfe =>
       rcases hu with hu | hu
       · cases cjs <;>
-          simp [applyFrame, callable, invoke, jsCall, runWrapped, vmTry, handleThrow, handleThrowLoop,
+          simp [applyFrame, applyFrameCore, callable, invoke, jsCall, runWrapped, vmTry, handleThrow, handleThrowLoop,
             exceptionFromValue, wrapJSFuncE, returnErr, wrapReflectErr, hu, TopIs, stepTop]
       · simp [Frame.unwraps] at hu
     | ja => simp [Frame.swallows] at hsw
@@ -692,31 +697,31 @@ theorem applyFrame_topIs (idx : Nat) (f : Frame) (cjs : Bool) {v : JsVal} {t : S
     | rfw => simp [Frame.rewraps] at hrw
     | _ =>
       cases cjs <;>
-        simp [applyFrame, callable, invoke, jsCall, runWrapped, vmTry, handleThrow, handleThrowLoop,
+        simp [applyFrame, applyFrameCore, callable, invoke, jsCall, runWrapped, vmTry, handleThrow, handleThrowLoop,
           exceptionFromValue, panicErr, returnErr, wrapReflectErr, wrapJSFuncN, ErrVal.toPv, shim, jsFrame,
           runProgram, runProgram.handleThrowOpt, JsKind.hasCatch, JsKind.hasFinally, TopIs, stepTop, panicValue,
           nativeTop]
   · subst ht
-    cases f with
+    cases hs : v.ownStack <;> cases f with
     | js k =>
       cases k <;> simp [Frame.swallows, JsKind.swallows, JsKind.hasCatch, JsKind.rethrows] at hsw <;>
-        simp [applyFrame, jsFrame, handleThrow, handleThrowLoop, exceptionFromValue, JsKind.hasCatch,
-          JsKind.hasFinally, JsKind.rethrows, TopIs, stepTop, throwExec, nativeTop]
+        simp [applyFrame, applyFrameCore, jsFrame, handleThrow, handleThrowLoop, exceptionFromValue, JsKind.hasCatch,
+          JsKind.hasFinally, JsKind.rethrows, TopIs, stepTop, throwExec, nativeTop, hs]
     | xfe =>
       rcases hu with hu | hu
       · cases cjs <;>
-          simp [applyFrame, callable, invoke, jsCall, runWrapped, vmTry, handleThrow, handleThrowLoop,
-            exceptionFromValue, wrapJSFuncE, returnErr, wrapReflectErr, hu, TopIs, stepTop, nativeTop]
+          simp [applyFrame, applyFrameCore, callable, invoke, jsCall, runWrapped, vmTry, handleThrow, handleThrowLoop,
+            exceptionFromValue, wrapJSFuncE, returnErr, wrapReflectErr, hu, TopIs, stepTop, nativeTop, hs]
       · simp [Frame.unwraps] at hu
     | ja => simp [Frame.swallows] at hsw
     | fcs => simp [Frame.swallows] at hsw
     | rfw => simp [Frame.rewraps] at hrw
     | _ =>
       cases cjs <;>
-        simp [applyFrame, callable, invoke, jsCall, runWrapped, vmTry, handleThrow, handleThrowLoop,
+        simp [applyFrame, applyFrameCore, callable, invoke, jsCall, runWrapped, vmTry, handleThrow, handleThrowLoop,
           exceptionFromValue, panicErr, returnErr, wrapReflectErr, wrapJSFuncN, ErrVal.toPv, shim, jsFrame,
           runProgram, runProgram.handleThrowOpt, JsKind.hasCatch, JsKind.hasFinally, TopIs, stepTop, panicValue,
-          nativeTop]
+          nativeTop, hs]
 
 theorem evalSeg_topIs (s : Seg) (ijs : Bool) {v : JsVal} {t : StackTop} {fl : Flow}
     (hsw : ∀ q ∈ s, q.2.swallows = false) (hrw : ∀ q ∈ s, q.2.rewraps = false)
@@ -787,11 +792,95 @@ theorem hostRun_topIs (entry : Entry) (chain : List Frame) (p : Payload) {v : Js
       cases entry <;> cases b <;>
         simp [firstCall, callable, runWrapped, runProgram, runProgram.handleThrowOpt, invoke]
     · rw [h, ht]
-      cases entry <;> cases b <;>
+      cases hs : v.ownStack <;> cases entry <;> cases b <;>
         simp [firstCall, callable, runWrapped, runProgram, runProgram.handleThrowOpt, invoke, jsCall, vmTry,
-          handleThrow, handleThrowLoop, exceptionFromValue, nativeTop]
+          handleThrow, handleThrowLoop, exceptionFromValue, nativeTop, hs]
   simp only [hostRunSegs, segInner, List.isEmpty_nil, ↓reduceIte, hfc, ranLeave, runJobs, mergeJobs, hfin,
     CallRes.toHost]
+
+theorem GoErr.isUncatchable_peel (e : GoErr) : e.peel.isUncatchable = e.isUncatchable := by
+  induction e with
+  | wrap i inner ih =>
+    cases i with
+    | zero => simpa [GoErr.peel, GoErr.isUncatchable] using ih
+    | succ n => simp [GoErr.peel]
+  | _ => simp [GoErr.peel]
+
+theorem GoErr.liveInterrupt_peel (e : GoErr) : e.peel.liveInterrupt = e.liveInterrupt := by
+  induction e with
+  | wrap i inner ih =>
+    cases i with
+    | zero => simpa [GoErr.peel, GoErr.liveInterrupt] using ih
+    | succ n => simp [GoErr.peel]
+  | _ => simp [GoErr.peel]
+
+/-! ### The interrupt flag is sticky: a native frame that drops the error cannot drop the interrupt -/
+
+/-- The interrupt `i` is alive in the flow: as the panicking error (possibly wrapped), or pending after a native
+frame swallowed the error value. -/
+def Live (i : GoErr) : Flow → Prop
+  | .panic (.goErr e) _ => e.liveInterrupt = some i ∧ e.isUncatchable = true
+  | .pending e => e = i
+  | _ => False
+
+theorem applyFrame_live (idx : Nat) (f : Frame) (cjs : Bool) {i : GoErr} {fl : Flow}
+    (hi : i.liveInterrupt = some i ∧ i.isUncatchable = true) (hc : Live i fl) :
+    Live i (applyFrame idx f cjs fl).1 ∧ (applyFrame idx f cjs fl).2 = [] := by
+  have panicCase : ∀ (e : GoErr) (o : StackTop), e.liveInterrupt = some i → e.isUncatchable = true →
+      Live i (applyFrameCore idx f cjs (.panic (.goErr e) o)).1 ∧
+        (applyFrameCore idx f cjs (.panic (.goErr e) o)).2 = [] := by
+    intro e o hl hu
+    by_cases hf : f = .fcs
+    · subst hf
+      cases cjs <;>
+        simp [applyFrameCore, callable, invoke, jsCall, runWrapped, vmTry, handleThrow, handleThrowLoop,
+          exceptionFromValue, recoverUncatchable, asUncatchableException, hu, hl, Live]
+    · have hd : f.dropsErrors = false := by cases f <;> simp_all [Frame.dropsErrors]
+      obtain ⟨x', o', h, hunc, _⟩ := applyFrame_unclassifiable idx f cjs (x := .goErr e) rfl (Or.inl hd) o
+      have h' : applyFrameCore idx f cjs (.panic (.goErr e) o) = (.panic x' o', []) := by
+        simpa [applyFrame] using h
+      rw [h']
+      obtain ⟨_, hp, _⟩ := hunc
+      cases x' with
+      | goErr e' =>
+        have hpe : e'.peel = e.peel := by simpa [Pv.peel] using hp
+        refine ⟨⟨?_, ?_⟩, rfl⟩
+        · rw [← GoErr.liveInterrupt_peel, hpe, GoErr.liveInterrupt_peel]; exact hl
+        · rw [← GoErr.isUncatchable_peel, hpe, GoErr.isUncatchable_peel]; exact hu
+      | val w => simp [Pv.peel] at hp
+      | exc ex => simp [Pv.peel] at hp
+      | sentinel k => simp [Pv.peel] at hp
+      | other n => simp [Pv.peel] at hp
+  cases fl with
+  | normal => simp [Live] at hc
+  | pending e =>
+    have : e = i := hc
+    subst this
+    cases hp : f.pureNative with
+    | true => simp [applyFrame, hp, Live]
+    | false =>
+      have := panicCase e .other hi.1 hi.2
+      simpa [applyFrame, hp] using this
+  | panic x o =>
+    cases x with
+    | goErr e =>
+      obtain ⟨hl, hu⟩ := hc
+      have := panicCase e o hl hu
+      simpa [applyFrame] using this
+    | val w => simp [Live] at hc
+    | exc ex => simp [Live] at hc
+    | sentinel k => simp [Live] at hc
+    | other n => simp [Live] at hc
+
+theorem evalSeg_live (s : Seg) (ijs : Bool) {i : GoErr} {fl : Flow}
+    (hi : i.liveInterrupt = some i ∧ i.isUncatchable = true) (hc : Live i fl) :
+    Live i (evalSeg s fl ijs).1 ∧ (evalSeg s fl ijs).2 = [] := by
+  induction s with
+  | nil => exact ⟨hc, rfl⟩
+  | cons hd tl ih =>
+    obtain ⟨j, f⟩ := hd
+    obtain ⟨a1, a2⟩ := applyFrame_live j f (headIsJS tl ijs) hi ih.1
+    exact ⟨by simpa [evalSeg] using a1, by simp [evalSeg, ih.2, a2]⟩
 
 theorem carried_errIs {ev : ErrVal} {e : GoErr} (h : ev.carried = some e) (t : Nat) :
     ev.errIs t = e.errIs t := by
